@@ -495,6 +495,18 @@ func c15Cases(tier string) []c15Case {
 					cs = append(cs, c15Case{Group: "request", Level: lvl, Pre: pre, Shape: "http", Path: p, Cookie: ck, Host: "app.test"})
 				}
 			}
+			// every odd string as cookie value of the session cookie, as a foreign cookie's value, as path suffix,
+			// as callback query value and as host
+			for _, odd := range oddStrings {
+				name := world.CookieName("")
+				for _, ck := range []string{name + "=" + odd, "x=" + odd + "; " + name + "=sid", odd, name + odd} {
+					cs = append(cs, c15Case{Group: "request", Level: lvl, Pre: pre, Shape: "http", Path: "/", Cookie: ck, Host: "app.test"})
+				}
+				for _, p := range []string{"/" + odd, "/callback?state=" + odd + "&code=" + odd, "/callback?" + odd, "/callback" + odd, "/logout" + odd, "/x?" + odd + "#" + odd} {
+					cs = append(cs, c15Case{Group: "request", Level: lvl, Pre: pre, Shape: "http", Path: p, Cookie: "session", Host: "app.test"})
+				}
+				cs = append(cs, c15Case{Group: "request", Level: lvl, Pre: pre, Shape: "http", Path: "/", Cookie: "session", Host: "h" + odd})
+			}
 			for _, h := range hosts {
 				for _, p := range []string{"/", "{callback}", "/logout"} {
 					cs = append(cs, c15Case{Group: "request", Level: lvl, Pre: pre, Shape: "http", Path: p, Cookie: "session", Host: h})
